@@ -7,7 +7,7 @@ Open Scope string_scope.
 (* ---- records other than ATOM / HETATM / MODEL / TER ---- *)
 Definition is_other_record (l : string) : bool :=
   let tag := slice 0 6 l in
-  negb (is_atom_tag tag) && negb (String.eqb tag "MODEL ") && negb (String.eqb tag "TER   ").
+  negb (is_atom_tag tag) && negb (String.eqb tag "MODEL ") && negb (is_ter tag).
 
 Theorem other_records_noop o s l : is_other_record l = true -> step o s l = Ok (s, []).
 Proof.
@@ -31,7 +31,7 @@ Theorem ignored_residues_noop o s l : is_ignored_record o l = true -> step o s l
 Proof.
   unfold is_ignored_record. intros H. apply andb_true_iff in H as [H Hi]. apply andb_true_iff in H as [Ha Hl].
   apply Nat.leb_le in Hl. unfold step.
-  assert (Hm : String.eqb (slice 0 6 l) "MODEL " = false /\ String.eqb (slice 0 6 l) "TER   " = false).
+  assert (Hm : String.eqb (slice 0 6 l) "MODEL " = false /\ is_ter (slice 0 6 l) = false).
   { unfold is_atom_tag in Ha. apply orb_true_iff in Ha as [E|E]; apply String.eqb_eq in E; rewrite E; split; reflexivity. }
   destruct Hm as [Hm Ht]. rewrite Hm, Ht, Ha. cbn [bind negb].
   destruct (idx_some_of_len 16 l) as [c H16]; [lia|]. rewrite H16. cbn [bind]. rewrite Hi. destruct s; reflexivity.
@@ -48,7 +48,7 @@ Qed.
 (* ---- columns that are never read: serial (beyond being a valid hybrid-36 field), occupancy, B-factor and everything
         from column 67 on (segment id, element symbol, charge); the element is inferred from the name columns ---- *)
 Definition relevant (l : string) :=
-  (slice 0 6 l, slice 12 16 l, idx 16 l, slice 17 20 l, idx 21 l, slice 22 26 l, slice 26 27 l,
+  (slice 0 6 l, slice 12 16 l, idx 16 l, slice 17 20 l, idx 21 l, slice 22 26 l, slice 26 27 l, slice 21 27 l,
    slice 30 38 l, slice 38 46 l, slice 46 54 l, slice 12 14 l).
 Definition serial_ok (l : string) : bool :=
   match Hy36.decode (list_ascii_of_string (slice 6 11 l)) with Hy36.Ok _ => true | Hy36.ValueError => false end.
@@ -67,7 +67,7 @@ Lemma mk_atom_relevant l1 l2 : relevant l1 = relevant l2 -> serial_ok l1 = true 
   | _, _ => False end.
 Proof.
   unfold relevant, serial_ok, mk_atom. intros H S1 S2.
-  injection H as H0 H1 H2 H3 H4 H5 H6 H7 H8 H9 H10.
+  injection H as H0 H1 H2 H3 H4 H5 H6 HR H7 H8 H9 H10.
   destruct (Hy36.decode (list_ascii_of_string (slice 6 11 l1))); [|discriminate].
   destruct (Hy36.decode (list_ascii_of_string (slice 6 11 l2))); [|discriminate].
   cbn [bind]. rewrite H7, H8, H9, H5, H4, H1, H3, H0. unfold element_of. rewrite H10.
@@ -85,11 +85,11 @@ Theorem unread_columns_inert o s l1 l2 : is_atom_tag (slice 0 6 l1) = true ->
   erase_res (step o s l1) = erase_res (step o s l2).
 Proof.
   intros Ha1 H S1 S2. pose proof (mk_atom_relevant l1 l2 H S1 S2) as Hm.
-  unfold relevant in H. injection H as H0 H1 H2 H3 H4 H5 H6 H7 H8 H9 H10.
+  unfold relevant in H. injection H as H0 H1 H2 H3 H4 H5 H6 HR H7 H8 H9 H10.
   unfold step. rewrite H0 in *.
   assert (Hnt : String.eqb (slice 0 6 l2) "MODEL " = false).
   { unfold is_atom_tag in Ha1. apply orb_true_iff in Ha1 as [E|E]; apply String.eqb_eq in E; rewrite E; reflexivity. }
-  rewrite Hnt, Ha1. cbn [bind negb]. rewrite H2, H3, H4, H5, H1.
+  rewrite Hnt, Ha1. cbn [bind negb]. rewrite H2, H3, H4, HR, H1.
   destruct (idx 16 l2); [|reflexivity]. cbn [bind].
   destruct (mem_str (slice 17 20 l2) (ignore_residues o)); [reflexivity|].
   destruct (match chains o with [] => Ok true | _ => _ end) as [sel|e]; [|reflexivity]. cbn [bind].
@@ -116,7 +116,7 @@ Definition is_h_record (o : opts) (l : string) : bool :=
 Definition h_harmless (s : st) (l : string) : bool :=
   match nt s with
   | Some _ => true
-  | None => negb (String.eqb (slice 0 6 l) "ATOM  ") || negb (opt_neqb (oldres s) (slice 22 26 l))
+  | None => negb (String.eqb (slice 0 6 l) "ATOM  ") || negb (opt_neqb (oldres s) (slice 21 27 l))
   end.
 
 Theorem hydrogen_record_noop o s l : keep_protons o = false -> is_h_record o l = true -> h_harmless s l = true ->
@@ -125,7 +125,7 @@ Proof.
   unfold is_h_record, h_harmless. intros Hk H Hh.
   repeat (apply andb_true_iff in H as [H ?]).
   match goal with Ha : is_atom_tag _ = true |- _ => rename Ha into Hat end.
-  assert (Hm : String.eqb (slice 0 6 l) "MODEL " = false /\ String.eqb (slice 0 6 l) "TER   " = false).
+  assert (Hm : String.eqb (slice 0 6 l) "MODEL " = false /\ is_ter (slice 0 6 l) = false).
   { unfold is_atom_tag in Hat. apply orb_true_iff in Hat as [E|E]; apply String.eqb_eq in E; rewrite E; split; reflexivity. }
   destruct Hm as [Hm Ht]. unfold step. rewrite Hm, Ht, Hat. cbn [bind negb].
   destruct (idx 16 l) as [c16|]; [|discriminate]. cbn [bind].
